@@ -763,6 +763,15 @@ def search(payload):
     n_random = 200000 if deep else 40000
     for _ in range(n_random):
         specs.append(random_spec(rng, leaves, rng.randrange(2, 9 if deep else 7)))
+    # operands that are == but not the same: commuted connectives, constants equal across types (1 == True == 1.0)
+    eqs = [(["var", "a"], ["var", "b"]), (["c1", "ne_p", "1"], ["var", "a"]), (["c1", "ne_p", "2"], ["c1", "ne_p", "3"])]
+    for a_, b_ in eqs:
+        for o1 in BIN:
+            for o2 in BIN:
+                specs += [["bin", o1, ["bin", o2, a_, b_], ["bin", o2, b_, a_]], ["bin", o1, ["un", "~", ["bin", o2, a_, b_]], ["bin", o2, b_, a_]]]
+    for c1_, c2_ in (("1", "True"), ("True", "1"), ("1", "1.0"), ("0", "False"), ("0.0", "0"), ("2", "2.0")):
+        for o1 in BIN:
+            specs += [["bin", o1, ["c1", "ne_p", c1_], ["c1", "ne_p", c2_]], ["bin", o1, ["un", "all_p", ["c1", "ne_p", c1_]], ["un", "all_p", ["c1", "ne_p", c2_]]]]
     # long chains and deep nests (depth only limited by Python's own recursion limit, which the property does not speak about)
     for d in (20, 60, 120):
         s = ["var", "p"]
